@@ -98,9 +98,15 @@ func (c *Ctx) deadlineReader() {
 	c.R.Check(okArg, ruleP5, "deadline-reader:deadline=now+d", c.P.Pos(rd.Pos()), "SetReadDeadline(time.Now().Add(r.d))", "the deadline is not time.Now() plus the reader's duration")
 	// B8: d = f * keepAlive, 1 <= f <= 1.5, keepAlive = time.Second * Duration(svc.keepAlive); conn = the service's connection
 	var dval, connval ssa.Value
-	if al, ok := ir.SeeThrough(mk.X).(*ssa.UnOp); ok {
-		// struct literal stored field by field into a local cell
-		if cell, ok := al.X.(*ssa.Alloc); ok && cell.Referrers() != nil {
+	{
+		// struct literal stored field by field into a local cell (value or pointer form)
+		var cell *ssa.Alloc
+		if al, ok := mk.X.(*ssa.UnOp); ok {
+			cell, _ = al.X.(*ssa.Alloc)
+		} else if al, ok := mk.X.(*ssa.Alloc); ok {
+			cell = al
+		}
+		if cell != nil && cell.Referrers() != nil {
 			for _, ref := range *cell.Referrers() {
 				if fa, ok := ref.(*ssa.FieldAddr); ok && fa.Referrers() != nil {
 					st, _ := structOfType(fa.X.Type())
